@@ -1,4 +1,4 @@
-# C09 URL-encoded round trip (method level)
+# C09 URL-encoded round trip (method level) + decoding of key=value text against RFC 3986 percent-decoding
 import os, sys
 sys.path.insert(0, os.path.join(os.path.dirname(os.path.abspath(__file__)), "..", "lib"))
 from vf import H, C, M
@@ -7,15 +7,29 @@ MODULES = [M("ohkami_lib/src/serde_urlencoded.rs", "harness/C09/urlencoded.rs"),
 CONTRACTS = []
 B = dict(crate="ohkami_lib", strength="bounded", tier="quick", timeout=900)
 S, D = "serde_urlencoded::ser::URLEncodedSerializer::", "serde_urlencoded::de::URLEncodedDeserializer::"
+RT = "decode(encode(v)) == v through the real serialize_* / deserialize_* methods in the value place"
 HARNESSES = [
-    H("c09_roundtrip_bool", functions=[S + "serialize_bool", D + "deserialize_bool"], clauses=["for both booleans: decode(encode(v)) == v"], bound="full domain of the type; one value place", **B),
-    H("c09_roundtrip_u8", functions=[S + "serialize_u8", D + "deserialize_u8"], clauses=["for all u8: decode(encode(v)) == v"], bound="full domain of the type", **B),
-    H("c09_roundtrip_i16", functions=[S + "serialize_i16", D + "deserialize_i16"], clauses=["for all i16: decode(encode(v)) == v"], bound="full domain of the type", **B),
-    H("c09_roundtrip_option_u8", functions=[S + "serialize_some", S + "serialize_none", D + "deserialize_option"], clauses=["for all Option<u8>: decode(encode(v)) == v"], bound="full domain of the type", **B),
-    H("c09_roundtrip_char", functions=[S + "serialize_char", D + "deserialize_char"], clauses=["for all chars (reserved characters and non-ASCII included): decode(encode(v)) == v"], bound="full domain of char", **B),
-    H("c09_roundtrip_pair_u8", functions=[S + "serialize_tuple", "SerializeTuple::serialize_element", D + "deserialize_tuple", "CommaSeparated::next_element_seed"], clauses=["for all (u8, u8): decode(encode(v)) == v (sequences)"], bound="2-element sequences of u8", **B),
-] + [H(f"c09_roundtrip_string_k{k:02d}", functions=[S + "serialize_str", D + "deserialize_string"], clauses=["strings are emitted percent-encoded (only unreserved ASCII and escapes on the wire)", "decode(encode(s)) == s"],
-       bound=f"all valid UTF-8 strings of {k} bytes", **B) for k in range(3)]
+    H("c09_roundtrip_bool", functions=[S + "serialize_bool", D + "deserialize_bool"], clauses=[RT], bound="both booleans", **B),
+    H("c09_roundtrip_option_bool", functions=[S + "serialize_some", S + "serialize_none", D + "deserialize_option"], clauses=[RT], bound="all Option<bool>", **B),
+    H("c09_roundtrip_unit_enum", functions=[S + "serialize_unit_variant", D + "deserialize_enum", "de::Enum::variant_seed"], clauses=[RT], bound="a derived 3-variant unit enum", **B),
+    H("c09_roundtrip_option_unit_enum", functions=[S + "serialize_unit_variant", S + "serialize_none", D + "deserialize_option", D + "deserialize_enum"], clauses=[RT], bound="Option of a derived 3-variant unit enum", **B),
+    H("c09_roundtrip_newtype", functions=[S + "serialize_newtype_struct", D + "deserialize_newtype_struct"], clauses=[RT], bound="a derived newtype over bool", **B),
+    H("c09_roundtrip_char", functions=[S + "serialize_char", D + "deserialize_char"], clauses=["for ALL chars (reserved characters and non-ASCII included): " + RT], bound="full domain of char", **B),
+    H("c09_roundtrip_pair_bool", functions=[S + "serialize_tuple", "SerializeTuple::serialize_element", D + "deserialize_tuple", "de::CommaSeparated::next_element_seed"], clauses=[RT + " (2-element sequence)"], bound="all (bool, bool)", **B),
+    H("c09_roundtrip_triple_bool", functions=[S + "serialize_tuple", "SerializeTuple::serialize_element", D + "deserialize_tuple", "de::CommaSeparated::next_element_seed"], clauses=[RT + " (3-element sequence)"], bound="all (bool, bool, bool)", **B),
+]
+for nm, what in [("u8_i8", "i16: boundaries of u8/i8"), ("u64_bounds", "u64: 0, u32::MAX, i64::MAX, i64::MAX+1, u64::MAX"), ("i64_bounds", "i64: MIN, MIN+1, -1, i32::MIN, MAX"),
+                 ("u32_i32_bounds", "i64: boundaries of u32/i32/u16/i16"), ("u16_native", "u16"), ("u32_native", "u32"), ("i8_native", "i8"), ("i32_native", "i32"), ("u8_native", "u8")]:
+    HARNESSES.append(H(f"c09_roundtrip_int_{nm}", functions=[S + "serialize_<int>", D + "deserialize_<int>"], clauses=[RT],
+                       bound="ENUMERATED CONCRETE boundary values (" + what + "): a symbolic integer through core's Display makes every copy symbolic-length (measured: > 18 GB per query)", **B))
+HARNESSES += [H(f"c09_roundtrip_string_k{k:02d}", functions=[S + "serialize_str", D + "deserialize_string"], clauses=["strings are emitted percent-encoded (only unreserved ASCII and escapes on the wire)", RT],
+                bound=f"all valid UTF-8 strings of {k} bytes", **B) for k in range(3)]
+HARNESSES += [H(f"c09_roundtrip_string_pair_k{k:02d}", functions=[S + "serialize_tuple", "SerializeTuple::serialize_element", D + "deserialize_tuple", "de::CommaSeparated::next_element_seed"],
+                clauses=["a sequence of strings decodes back to the same sequence, element boundaries kept"], bound=f"(String, String) of lengths {l}, symbolic ASCII contents", **B)
+              for k, l in enumerate([(1, 1), (1, 0), (2, 1), (0, 1)])]
+HARNESSES += [H(f"c09_decode_text_k{k:02d}", functions=["de::AmpersandSeparated::next_key_seed", "de::AmpersandSeparated::next_value_seed", D + "next_section", D + "deserialize_string"],
+                clauses=["`k=v&k=v` decodes, pair by pair, to the RFC 3986 percent-decoding of its `&`/`=`-separated parts (or an error exactly when a part does not decode to UTF-8); nothing after the last pair"],
+                bound=f"two pairs, 1-byte keys, values of {l} symbolic bytes (any byte except & and =)", **B) for k, l in enumerate([(1, 1), (3, 0), (0, 3), (2, 2)])]
 TRUSTED = ["ASSUMED CONTRACTS: percent-encoding crate (spec/percent.rs decoder + reference NON_ALPHANUMERIC encoder in harness/C09), core::str::from_utf8 (spec/utf8.rs); alloc::fmt::format stubbed",
-           "core's integer Display / FromStr executed, not specified"]
-ASSUMPTIONS = ["struct / map glue (derived impls), unit enums, floats, 32/64-bit integers, string maps, decode-vs-RFC 3986 of arbitrary `k=v&..` text and QueryParams::iter are NOT under a discharged contract"]
+           "core's integer Display / FromStr executed on enumerated values, not specified", "serde's derive output for the harness's unit enum / newtype is executed, not specified"]
+ASSUMPTIONS = ["struct / map glue of derived impls (field order, unknown extra fields), floats, string maps and QueryParams::iter are NOT under a discharged contract"]
